@@ -63,6 +63,7 @@ type FuncContract struct {
 	loopInv   map[int][]specLine
 	loopMod   map[int][]string
 	loopComplete map[int]bool
+	loopOver  map[int][]specLine // loop N over E: the loop ranges over exactly that collection
 	loopEnsures map[int][]specLine
 	at        map[string][]specLine // site label -> assertions
 	atAssume  map[string][]specLine
@@ -466,6 +467,11 @@ func (a *Annotations) funcClause(cf *FuncContract, word, rest string, sl specLin
 			cf.loopMod[n] = append(cf.loopMod[n], strings.Fields(r3)...)
 		case "complete":
 			cf.loopComplete[n] = true
+		case "over":
+			if cf.loopOver == nil {
+				cf.loopOver = map[int][]specLine{}
+			}
+			cf.loopOver[n] = append(cf.loopOver[n], sl)
 		case "ensures":
 			// loop N ensures E: holds at the end of every iteration (checked at each back edge)
 			if cf.loopEnsures == nil {
